@@ -14,7 +14,8 @@ use kanidm_lib_crypto::CryptoPolicy;
 use serde_json::{json, Value as J};
 use sparkle_resolver_common::db::{Cache, Db};
 use sparkle_resolver_common::idprovider::interface::{AuthCredHandler, AuthResult, Id, IdProvider, IdpError, UserToken};
-use sparkle_unix_common::unix_proto::PamAuthRequest;
+use sparkle_resolver_common::resolver::AuthSession;
+use sparkle_unix_common::unix_proto::{PamAuthRequest, PamAuthResponse, PamServiceInfo};
 use std::sync::atomic::{AtomicUsize, Ordering};
 use std::sync::{Arc, Mutex};
 use time::OffsetDateTime;
@@ -201,6 +202,115 @@ impl World {
     }
 }
 
+impl World {
+    async fn set_online(&self, on: bool) {
+        let r = self.ms[0].resolver.as_ref().expect("resolver");
+        if on {
+            self.srv.lock().expect("srv").down = false;
+            // a pooled connection the endpoint dropped while "down" can fail the first attempt: retry
+            let mut ok = false;
+            for _ in 0..6 {
+                r.mark_next_check_now(std::time::SystemTime::now()).await;
+                if r.test_connection().await {
+                    ok = true;
+                    break;
+                }
+            }
+            if !ok {
+                fail("conv: provider did not come online against the scripted endpoint");
+            }
+        } else {
+            self.srv.lock().expect("srv").down = true;
+            r.mark_offline().await;
+        }
+    }
+    async fn login(&self, p: &str) -> &'static str {
+        let r = self.ms[0].resolver.as_ref().expect("resolver");
+        match r.pam_account_authenticate(&self.name, OffsetDateTime::UNIX_EPOCH, &pw(p)).await {
+            Ok(Some(true)) => "accept",
+            Ok(Some(false)) => "deny",
+            Ok(None) => "unknown",
+            Err(_) => "error",
+        }
+    }
+    /// Overlapping conversations on the real Resolver: pam_account_authenticate_init and _step are separate steps.
+    async fn run_conv(&mut self, beh: &J, lines: &mut Vec<J>) {
+        let info = PamServiceInfo { service: "kv".to_string(), tty: None, rhost: None };
+        // prefix: the user logs in online with p1 once (cache = last = p1)
+        self.set_online(true).await;
+        let r0 = self.login("p1").await;
+        lines.push(json!({"a": "setup", "lvl": "conv", "p": "p1", "res": r0}));
+        let mut on = beh["on0"].as_bool().unwrap_or(false);
+        self.set_online(on).await;
+        lines.push(json!({"a": "toggle", "lvl": "conv", "on": on}));
+        let mut sess: std::collections::BTreeMap<String, (AuthSession, String, broadcast::Sender<()>)> = Default::default();
+        for st in beh["steps"].as_array().cloned().unwrap_or_default() {
+            let a = st["a"].as_str().unwrap_or("");
+            let c = st["c"].as_str().unwrap_or("-").to_string();
+            let p = st["p"].as_str().unwrap_or("-").to_string();
+            match a {
+                "toggle" => {
+                    on = !on;
+                    self.set_online(on).await;
+                    lines.push(json!({"a": "toggle", "lvl": "conv", "on": on}));
+                }
+                "pwchange" => {
+                    self.set_pw(&p);
+                    lines.push(json!({"a": "pwchange", "lvl": "conv", "p": p}));
+                }
+                "cinit" => {
+                    let (tx, rx) = broadcast::channel::<()>(1);
+                    let r = self.ms[0].resolver.as_ref().expect("resolver");
+                    match r.pam_account_authenticate_init(&self.name, &info, OffsetDateTime::UNIX_EPOCH, rx).await {
+                        Ok((s, PamAuthResponse::Password)) => {
+                            let mode = match &s {
+                                AuthSession::Online { .. } => "online",
+                                AuthSession::Offline { .. } => "offline",
+                                _ => "other",
+                            };
+                            lines.push(json!({"a": "cinit", "lvl": "conv", "c": c, "on": on, "mode": mode, "res": "prompt"}));
+                            sess.insert(c, (s, mode.to_string(), tx));
+                        }
+                        Ok(_) => lines.push(json!({"a": "cinit", "lvl": "conv", "c": c, "on": on, "mode": "none", "res": "refused"})),
+                        Err(_) => lines.push(json!({"a": "cinit", "lvl": "conv", "c": c, "on": on, "mode": "none", "res": "error"})),
+                    }
+                }
+                "cstep" => {
+                    let Some((mut s, mode, _tx)) = sess.remove(&c) else {
+                        lines.push(json!({"a": "cstep", "lvl": "conv", "c": c, "p": p, "on": on, "mode": "none", "res": "nosession"}));
+                        continue;
+                    };
+                    let r = self.ms[0].resolver.as_ref().expect("resolver");
+                    let res = match r.pam_account_authenticate_step(&mut s, PamAuthRequest::Password { cred: pw(&p) }).await {
+                        Ok(PamAuthResponse::Success) => "accept",
+                        Ok(PamAuthResponse::Denied) => "deny",
+                        Ok(_) => "other",
+                        Err(_) => "error",
+                    };
+                    lines.push(json!({"a": "cstep", "lvl": "conv", "c": c, "p": p, "on": on, "mode": mode, "res": res}));
+                    // a failed online step may have taken the provider offline: put the driver's state back
+                    self.set_online(on).await;
+                    self.probe(on, lines).await;
+                }
+                _ => {}
+            }
+        }
+    }
+    /// A fresh offline login (init + step back to back) with each password, provider forced offline meanwhile.
+    async fn probe(&self, on: bool, lines: &mut Vec<J>) {
+        self.set_online(false).await;
+        for p in ["p1", "p2"] {
+            let res = match self.login(p).await {
+                "accept" => "accept",
+                "deny" => "deny",
+                _ => "nocred",
+            };
+            lines.push(json!({"a": "probe", "lvl": "conv", "p": p, "res": res}));
+        }
+        self.set_online(on).await;
+    }
+}
+
 fn gen_random(rng: &mut Rng, n: u64) -> J {
     // provenance of the record cached on each machine: a record never goes back to the machine that sealed it
     let mut prov: [Option<usize>; 2] = [None, None];
@@ -259,6 +369,26 @@ pub fn run(o: &Opts) -> i32 {
         if let Some((l, s)) = cur.take() {
             items.push((l, json!({"steps": s})));
         }
+        // conversation-level histories: rebuild {on0, steps} from the observed lines
+        for (l, b) in items.iter_mut() {
+            if l == "conv" {
+                let obs = b["steps"].as_array().cloned().unwrap_or_default();
+                let mut on0 = false;
+                let mut seen_first_toggle = false;
+                let mut steps = Vec::new();
+                for r in obs {
+                    match r["a"].as_str().unwrap_or("") {
+                        "toggle" if !seen_first_toggle => {
+                            seen_first_toggle = true;
+                            on0 = r["on"].as_bool().unwrap_or(false);
+                        }
+                        "toggle" | "pwchange" | "cinit" | "cstep" => steps.push(r),
+                        _ => {}
+                    }
+                }
+                *b = json!({"on0": on0, "steps": steps});
+            }
+        }
     } else {
         let cases = o.get("cases").map(read_ndjson).unwrap_or_default();
         let every_p = o.u64("provider-every", 40).max(1) as usize;
@@ -271,6 +401,9 @@ pub fn run(o: &Opts) -> i32 {
             if i % every_r == 0 {
                 items.push(("resolver".into(), c.clone()));
             }
+        }
+        for c in o.get("conv-cases").map(read_ndjson).unwrap_or_default() {
+            items.push(("conv".into(), c));
         }
         let mut rng = Rng::new(o.seed());
         for i in 0..o.u64("random", 0) {
@@ -311,7 +444,7 @@ pub fn run(o: &Opts) -> i32 {
                     }
                     let (lvl, beh) = &items[i];
                     let name = format!("kvo{i}");
-                    let world = if lvl == "resolver" {
+                    let world = if lvl == "resolver" || lvl == "conv" {
                         if resolv.is_none() {
                             let a = machine_at(&ep.addr, vec![], true, &format!("{dir}/w{w}-a.db")).await;
                             let b = machine_at(&ep.addr, vec![], true, &format!("{dir}/w{w}-b.db")).await;
@@ -328,7 +461,10 @@ pub fn run(o: &Opts) -> i32 {
                     };
                     world.reset(&name, i as u64);
                     let mut lines = vec![json!({"a": "reset", "lvl": lvl, "i": i})];
-                    for st in beh["steps"].as_array().cloned().unwrap_or_default() {
+                    if lvl == "conv" {
+                        world.run_conv(beh, &mut lines).await;
+                    }
+                    for st in beh["steps"].as_array().cloned().unwrap_or_default().into_iter().filter(|_| lvl != "conv") {
                         let res = match lvl.as_str() {
                             "helper" => world.step_helper(&st, &policy),
                             "resolver" => world.step_resolver(&st).await,
